@@ -142,7 +142,7 @@ func Build(spec Spec) *Built {
 		ftypes := b.NewFile(d, tfn)
 		fapi := b.NewFile(d, "api.go")
 		fuse := b.NewFile(d, "uses.go")
-		var fexcl *File
+		var fexcl, fdtest, fdext *File
 		if spec.Excluded {
 			fexcl = b.NewFile(d, "gen_legacy_types.go")
 		}
@@ -357,6 +357,21 @@ func Build(spec Spec) *Built {
 				n, _ := b.FuncNode(d, b.d("use"), false, nil, fuse, w.Wrap(b, body))
 				fuse.Decls = append(fuse.Decls, n)
 				fuse.Decls = append(fuse.Decls, decls...)
+			}
+			// test files of the DECLARING package: in-package (same package) and external (package d_test, an importer)
+			if spec.Tests && exportedName(t.Name) {
+				if fdtest == nil {
+					fdtest = b.NewFile(d, "in_test.go")
+					fdext = b.NewFile(d, "ext_test.go")
+					fdext.ExtTest = true
+				}
+				body, decls := stmts(pick(nil, 4), "", "declaring-pkg-test-file")
+				n, _ := b.FuncNode(d, b.d("intest"), false, nil, fdtest, body)
+				fdtest.Decls = append(fdtest.Decls, n)
+				fdtest.Decls = append(fdtest.Decls, decls...)
+				body2, _ := stmts(pick(noDecl, 4), "", "declaring-pkg-ext-test-file")
+				n2, _ := b.FuncNode(d, b.d("xtest"), false, nil, fdext, body2)
+				fdext.Decls = append(fdext.Decls, n2)
 			}
 			// method of T writing its own fields / receiver
 			if t.Kind == "struct" {
